@@ -24,7 +24,8 @@ RULE = ("Hypothesis draws small run configurations (K in 2..4, NW<=12, both fron
         "versus the same call after the history in another such child, after which the memoised index helpers are compared "
         "with the independent enumeration of C11; (d) the same call in processes with PYTHONHASHSEED 1 and 2. Non-trivial = "
         "the logged completion order differs from submission order in some round, or the history is non-empty, or >= 2 "
-        "workers; the number of distinct completion permutations realised is reported. Distinct by SHA-1 of the case.")
+        "workers; the number of distinct completion permutations realised is reported. Distinct by SHA-1 of the case."
+        ' Separately: NW = 240 runs (matrices large enough for a threaded BLAS to change kernels) with 1 vs 2/3/4/8 workers must agree bit for bit.')
 ASSUMPTIONS = ["the harness chooses delays, not the OS schedule; with K<=4 tasks all K! completion orders are reachable and those realised are counted",
                "bitwise comparison only between executions in the same environment (same machine, libraries, thread settings)"]
 
@@ -44,7 +45,7 @@ def helper_workers():
 @st.composite
 def schedule_case(draw):
     cfg = draw(gen.e2e_config(front=("single", "single", "joint"), max_N=3, max_W=4, max_K=4, t_range=(30, 70), limits=(1, 2, 3, 5),
-                              betas=(0.0, 0.5, 2.0, 10.0, 100.0), lam_forms=("scalar", "const_matrix")))
+                              betas=(0.0, 0.5, 2.0, 10.0, 100.0), lam_forms=("scalar", "const_matrix"), allow_degenerate=True))
     nvar = draw(st.integers(1, 3))
     variants = []
     for _ in range(nvar):
@@ -68,6 +69,9 @@ def schedule_case(draw):
         hist.append(dict(base, lam=0.5 if base["lam"] != 0.5 else 0.01, lam_form="scalar", beta=base["beta"] + 1.0))
     if kind in ("same_shape_other_data", "both"):
         hist.append(dict(base, data_seed=(base["data_seed"] + 1) % (2 ** 31), sensor_scales=[3.0] * base["N"]))
+    cfg["prior_run_override"] = None        # histories are this check's own, explicit dimension
+    for h in hist:
+        h["prior_run_override"] = None
     cfg["variants"] = variants
     cfg["history"] = hist
     cfg["check_hashseed"] = True
@@ -248,9 +252,45 @@ def _plain_run_mp_off(cfg, timeout):
             os.environ["CUPCAKE_ENABLE_MULTIPROCESSING"] = saved
 
 
+def _large_cases(tier):
+    base = {"front": "joint", "N": 3, "W": 80, "K": 2, "lengths": [420, 400], "regimes": 2, "mean_spread": 4.0, "data_seed": 11,
+            "np_seed": 11, "py_seed": 11, "beta": 50.0, "beta_form": "scalar", "lam": 0.11, "lam_form": "scalar", "limit": 1,
+            "m": 5, "biased": False, "eps": 0, "num_processors": 1, "boundary_regime_flip": False}
+    yield dict(base, worker_counts=[4, 2])
+    yield dict(base, front="single", N=4, W=60, lengths=[700], data_seed=12, worker_counts=[8, 3])
+    if tier == "thorough":
+        yield dict(base, N=6, W=50, lengths=[500, 480], data_seed=13, worker_counts=[2, 5, 16])
+
+
+def execute_large(case, t):
+    """Matrices large enough (NW = 240 ... 300) for a multi-threaded BLAS to choose other kernels: the result with the library's
+    pool of w workers must be the bits of the single-process result, whatever w is."""
+    cfg = {k: v for k, v in case.items() if k != "worker_counts"}
+    tr0, left, to = plain_run(cfg, 1, 1200.0, t)
+    _reap(left)
+    if to or not tr0.ok:
+        t.discard("the single-process run did not complete")
+    d0 = _digest_of(tr0)
+    for w in case["worker_counts"]:
+        tr, left, to = plain_run(dict(cfg, num_processors=w), w, 1200.0, t)
+        _reap(left)
+        if to:
+            raise Violation(f"run with {w} workers (NW={cfg['N'] * cfg['W']}) did not return")
+        if not tr.ok:
+            raise Violation(f"run with {w} workers raised {type(tr.exc).__name__}: {str(tr.exc)[:100]}; with one process it completes")
+        if _digest_of(tr) != d0:
+            diff = max(float(np.max(np.abs(np.asarray(a) - np.asarray(b)))) for a, b in zip(tr.result.markov_random_fields, tr0.result.markov_random_fields))
+            raise Violation(f"result depends on the number of worker processes: {w} workers give other bits than one process "
+                            f"(NW={cfg['N'] * cfg['W']}, largest MRF difference {diff:.3g})")
+        t.cls(f"workers_{w}")
+    t.mark_nontrivial({"NW": cfg["N"] * cfg["W"], "worker_counts": case["worker_counts"]})
+
+
 SUBCHECKS = [
     SubCheck(name="schedules_histories_hashseeds", strategy=schedule_case, execute=execute,
              budget={"quick": 48, "thorough": 800}, shards={"quick": 16, "thorough": 16},
              modes={"quick": ["nojit"], "thorough": ["nojit", "jit"]}, min_nontrivial_fraction=0.3,
              shrink={"quick": False, "thorough": True}),
+    SubCheck(name="worker_count_independence_large_matrices", enumerate=_large_cases, execute=execute_large, exhaustive=False,
+             budget={"quick": 1, "thorough": 1}, shards={"quick": 2, "thorough": 3}, modes=["jit"], ambient=()),
 ]
